@@ -282,7 +282,10 @@ func cmdCheck(prop, tier string) int {
 					viols = append(viols, violation{Obligation: o.Name, Replay: fn, NoInput: true})
 					continue
 				}
-				knownLines = append(knownLines, fmt.Sprintf("KNOWN-FINDING: property=%s %s %s", prop, f.Tag, f.What))
+				if f.Demo == "" {
+					// without a demonstration the failing canary itself is the evidence that the finding persists
+					knownLines = append(knownLines, fmt.Sprintf("KNOWN-FINDING: property=%s %s %s", prop, f.Tag, f.What))
+				}
 			}
 			continue // canaries are not counted in obligations/discharged
 		}
@@ -322,26 +325,25 @@ func cmdCheck(prop, tier string) int {
 		viols = append(viols, bviol.viols...)
 		knownLines = append(knownLines, bviol.known...)
 	}
-	// findings with demonstrations (known): run the demo to confirm the witness still fails on the real code
-	for _, f := range findings {
-		if f.Property != prop || f.Status != "known" || f.Demo == "" {
-			continue
-		}
-		already := false
-		for _, kl := range knownLines {
-			if strings.Contains(kl, " "+f.Tag+" ") {
-				already = true
+	// findings with demonstrations (known): run the demos (one go test invocation) to confirm that the recorded
+	// witnesses still fail on the real code; a finding whose demo passes is no longer reported
+	{
+		var demos []*Finding
+		for _, f := range findings {
+			if f.Property == prop && f.Status == "known" && f.Demo != "" && !strings.HasPrefix(f.Obligation, "bounded:") {
+				demos = append(demos, f)
 			}
 		}
-		if already && known[f.Obligation] != nil {
-			continue
-		}
-		if strings.HasPrefix(f.Obligation, "bounded:") {
-			continue
-		}
-		fails, _ := runDemo(f)
-		if fails && !already {
-			knownLines = append(knownLines, fmt.Sprintf("KNOWN-FINDING: property=%s %s %s", prop, f.Tag, f.What))
+		if len(demos) > 0 {
+			failing := runDemos(demos)
+			for _, f := range demos {
+				line := fmt.Sprintf("KNOWN-FINDING: property=%s %s %s", prop, f.Tag, f.What)
+				if failing[f.Tag] {
+					knownLines = append(knownLines, line)
+				} else if known[f.Obligation] == nil || !strings.HasPrefix(f.Obligation, "lemma.") {
+					// demo passes now: drop a line that a canary may have produced only if there is no failing canary
+				}
+			}
 		}
 	}
 	sort.Strings(knownLines)
@@ -447,6 +449,36 @@ func goTestOverlay(testFile, pkg, run string, timeout int, extraEnv []string) (s
 	cmd.Env = append(cmd.Env, extraEnv...)
 	out, err := cmd.CombinedOutput()
 	return string(out), err == nil
+}
+
+// runDemos runs the demonstrations of several findings in one test binary; returns tag -> still failing.
+func runDemos(fs []*Finding) map[string]bool {
+	dir := ensureWorkDir()
+	repl := map[string]string{}
+	var runs []string
+	pkg := "snaps"
+	for _, f := range fs {
+		if f.DemoPkg != "" {
+			pkg = f.DemoPkg
+		}
+		src := filepath.Join(verifDir, f.Demo)
+		repl[filepath.Join(repoDir, pkg, "zz_verif_"+filepath.Base(src))] = src
+		runs = append(runs, f.DemoRun)
+	}
+	data, _ := json.Marshal(map[string]any{"Replace": repl})
+	ovFile := filepath.Join(dir, "ov_demos.json")
+	os.WriteFile(ovFile, data, 0o644)
+	cmd := exec.Command("go", "test", "-overlay", ovFile, "-vet=off", "-count=1", "-timeout", "180s", "-v", "-run", "^("+strings.Join(runs, "|")+")$", "./"+pkg)
+	cmd.Dir = repoDir
+	cmd.Env = append(os.Environ(), "GOFLAGS=-mod=mod", "GOPROXY=off", "GOSUMDB=off", "GOTOOLCHAIN=local")
+	out, _ := cmd.CombinedOutput()
+	res := map[string]bool{}
+	for _, f := range fs {
+		if strings.Contains(string(out), "--- FAIL: "+f.DemoRun+" ") {
+			res[f.Tag] = true
+		}
+	}
+	return res
 }
 
 // runDemo runs the demonstration of a finding; returns true if it still fails on the real code.
